@@ -35,7 +35,15 @@ def describe(line, verdict, case_json):
             k, pm, cd = items[3 * i: 3 * i + 3]
             d["failing"] = dict(k=_f(k), observable=["PMF", "CDF"][which], observed=_f(pm if which == 0 else cd))
             dg = verdict[3:]
-            if len(dg) >= 4:
+            if tag & 2048 and len(dg) >= 5:
+                # enclosure mode (Check/C06.v, round 3): diagnostics = floor k, L num, L den, U num, U den
+                from fractions import Fraction
+                lo, hi = Fraction(dg[1], dg[2]), Fraction(dg[3], dg[4])
+                d["failing"]["floor_k"] = dg[0]
+                d["failing"]["expected"] = float(lo)
+                d["failing"]["expected_enclosure"] = dict(lower=float(lo), upper=float(hi), width=float(hi - lo),
+                                                          observed_minus_lower=float(Fraction(d["failing"]["observed"]) - lo))
+            elif len(dg) >= 4:
                 ki, u, T, s = dg[0], dg[1], dg[2], dg[3]
                 d["failing"]["floor_k"] = ki
                 try:
